@@ -61,6 +61,11 @@ CLAIMED = {
         text="Every driver stores any non-negative seed (0 included) and builds exactly one PCG64 generator from it without touching an unseeded source; the default seed is drawn once and stored; the context's generator is the driver's; every draw-method call in the package has the simulation's generator as receiver; no module-level numpy.random / random / time / uuid / secrets / default_rng / hash() call, no iteration over a set, ASE velocity helpers only with rng=. With PCG64 trusted and every function a function of (state, draws), equal seeds give equal trajectories, histories and logs.",
         note="syntactic static analysis with per-module import aliases; loggers for foreign ASE drivers (add_md_fields/add_opt_fields) excluded; 'different seeds differ' is a PCG64 property (trusted, only the bounded native test); third-party calculators outside quansino.",
         design="§7 C06"),
+    "C20": dict(
+        technique="contract-based deductive verification with opaque protocol sorts: strict user objects that answer only to the members declared in protocols.py; the real add_move/step/to_dict/save_state of all six Monte Carlo drivers executed on them with symbolic move results and verdicts; notification obligations on the accept paths; native strict-proxy runs as stand-in",
+        text="In every driver (base, canonical, Hamiltonian, isobaric, isotension, grand canonical) a bare move and criteria added with an explicit criteria are stored as given, executed with the context, serialized through their own to_dict, and no attribute other than the protocol members is read or written and no isinstance probe is made; a truthy result sends the trial to evaluate exactly once and records True/False, a falsy one records None without evaluating; accepted trials save, rejected revert; every accepted trial of GrandCanonical notifies on_atoms_changed once with the context's added/deleted index sets; Isobaric/Isotension.save_state notifies on_cell_changed(new cell) once iff the cell changed.",
+        note="two trials per step with all outcome combinations (histories by Inv); Context.save/revert cut by contract (C03/C04); protocol surface re-read from protocols.py each run.",
+        design="§7 C20"),
 }
 PENDING_REASON = "check not yet registered in this revision (under construction; see DESIGN.md §0/§7 for the plan)"
 
